@@ -50,6 +50,7 @@ package main
 //@   ensures [C12] forall w Iface :: w != cmd.Stderr && w != cmd.Stdout ==> outs[w] == old(outs)[w]
 
 //@ func (r *patchRunner) Apply(filename, f) (fout, comments, matched)
+//@   requires typing: snapEnvOK()
 //@   requires f != nil && astOK(f)
 //@   requires wfProgs(r.patches)
 //@   requires forall i int {r.errors[i]} :: 0 <= i && i < len(r.errors) ==> r.errors[i] != nil
@@ -59,7 +60,7 @@ package main
 //@   at call (*engine.Change).Replace set changelogsUsed = changelogsUsed + 1
 //@   at call (*astdiff.Snapshot).Diff assert [C17] the-snapshot-is-advanced-with-the-regions-of-this-change: unbox(arg2, "S_engine_Changelog") == lastChangelog
 //@   at call main.cleanupFilePos assert [C17] only-the-regions-of-this-change-are-cleaned-up: arg1 == lastChangelog
-//@   assigns r.errors, elems(r.errors), group(ast), matchCount, replFail, sitesReplaced, restructured, lastChangelog, changelogsMade, changelogsUsed
+//@   assigns r.errors, elems(r.errors), group(ast), matchCount, replFail, sitesReplaced, restructured, lastChangelog, changelogsMade, changelogsUsed, allof("F.S_astdiff_value.Comments")
 //@   ensures [C16] recorded-errors-are-errors: forall i int {r.errors[i]} :: 0 <= i && i < len(r.errors) ==> r.errors[i] != nil
 //@   ensures [C06,C08,C09] matched-has-file: matched ==> fout != nil
 //@   ensures [C06] matched-only-after-match: matched ==> matchCount > old(matchCount)
@@ -67,6 +68,7 @@ package main
 //@   ensures [C06,C09] only-errors-grow: len(r.errors) >= old(len(r.errors))
 //@   ensures errors-array-same-or-fresh: r.errors.arr == old(r.errors.arr) || fresh(r.errors.arr)
 //@   loop 0
+//@     invariant snap != nil && snap.value != nil && wfV(snap.value)
 //@     invariant [C17] changelogsMade - old(changelogsMade) == changelogsUsed - old(changelogsUsed)
 //@     invariant r.errors.arr == old(r.errors.arr) || fresh(r.errors.arr)
 //@     invariant forall i int {r.errors[i]} :: 0 <= i && i < len(r.errors) ==> r.errors[i] != nil
@@ -78,6 +80,7 @@ package main
 //@     invariant replFail == old(replFail)
 //@     invariant len(r.errors) >= old(len(r.errors))
 //@   loop 1
+//@     invariant snap != nil && snap.value != nil && wfV(snap.value)
 //@     invariant [C17] changelogsMade - old(changelogsMade) == changelogsUsed - old(changelogsUsed)
 //@     invariant r.errors.arr == old(r.errors.arr) || fresh(r.errors.arr)
 //@     invariant forall i int {r.errors[i]} :: 0 <= i && i < len(r.errors) ==> r.errors[i] != nil
@@ -126,6 +129,7 @@ package main
 //@     decreases _
 
 //@ func (cmd *mainCmd) Run(args) (err)
+//@   requires typing: snapEnvOK()
 //@   requires cmd.Stdout != nil && cmd.Stderr != nil
 //@   at effect disk-write assert [C12] dry-run-never-writes: !opts.Diff && !opts.Print
 //@   at effect disk-write assert [C06] only-matched-files-written: ok
